@@ -1101,6 +1101,9 @@ def epochs(x, pad=0):
     # activity is registered at very beginning or end of experiment.
 
     if len(end) == 0 and len(start) == 0:
+        if len(x) > 0 and x[0]:
+            # No edges and first sample is high: the entire array is one epoch.
+            return np.array([[0, len(x)]])
         return np.array([]).reshape((0, 2))
     elif len(end) == 0 and len(start) == 1:
         end = np.r_[end, len(x)]
